@@ -83,27 +83,30 @@ Qed.
 
 (* For every history that starts with the two pull streams (0 and 1, same path) and in which both
    cameras end — whatever else happens in whatever order: the two registrations, any number of
-   consumers attaching to or leaving either stream before or after the other registration, lookups,
-   idle tasks, other publishers — at the end both streams have ended, every consumer that was
-   attached to either of them has been released (its Close called), none is attached, and no key
-   resolves to either of them. *)
+   consumers attaching to or leaving either stream before, during or after the other registration
+   (also after the stream has been closed as replaced), lookups, idle tasks, other publishers — at
+   the end both streams have ended, every consumer that ever joined either of them (while it was live
+   or not) has been released (its Close called), none is attached, and no key resolves to either. *)
 Theorem replaced_pull_releases_consumers : forall (p : bytes) (h0 h1 : bool) (ops : list gop),
   In (GUnregist 0) ops -> In (GUnregist 1) ops ->
-  let sp := sexec sinit (GNew p h0 :: GNew p h1 :: ops) in
+  let h := GNew p h0 :: GNew p h1 :: ops in
+  let sp := sexec sinit h in
   (forall i, (i < 2)%nat ->
      st_live (sp_get sp i) = false /\ consumers (sp_get sp i) = 0 /\
-     released (sp_get sp i) = st_att_total (sp_get sp i)) /\
+     released (sp_get sp i) = st_att_total (sp_get sp i) /\
+     closed_total i h = attached_total i h) /\
   (forall k, sp_resolve sp k <> Some 0%nat /\ sp_resolve sp k <> Some 1%nat).
 Proof.
-  intros p h0 h1 ops H0 H1 sp.
+  intros p h0 h1 ops H0 H1 h sp.
   assert (Hdead : forall i, (i < 2)%nat -> st_live (sp_get sp i) = false).
-  { intros i Hi. unfold sp. change (GNew p h0 :: GNew p h1 :: ops) with ([GNew p h0; GNew p h1] ++ ops).
+  { intros i Hi. unfold sp, h. change (GNew p h0 :: GNew p h1 :: ops) with ([GNew p h0; GNew p h1] ++ ops).
     apply ended_is_dead; [cbn; lia|]. destruct i as [|[|i]]; [exact H0|exact H1|lia]. }
   split.
   - intros i Hi. specialize (Hdead i Hi). split; [exact Hdead|].
-    destruct (registry_end_releases (GNew p h0 :: GNew p h1 :: ops)) as (_ & E & _).
+    destruct (registry_end_releases h) as (_ & E & _).
     destruct (E i Hdead) as (Er & Ef & El). fold sp in Er, Ef, El.
-    split; [unfold consumers; rewrite Er, Ef; reflexivity|exact El].
+    split; [unfold consumers; rewrite Er, Ef; reflexivity|]. split; [exact El|].
+    unfold closed_total, attached_total. fold sp. rewrite El. reflexivity.
   - intros k. split; intros Hr; unfold sp_resolve in Hr;
       (destruct (mlookup (sp_last sp) k) as [x|]; [|discriminate]);
       (destruct (st_live (sp_get sp x)) eqn:Hl; [|discriminate]); inversion Hr; subst x.
@@ -111,11 +114,32 @@ Proof.
     + rewrite (Hdead 1%nat) in Hl; [discriminate|lia].
 Qed.
 
+(* a consumer that joins a stream which is not live is counted as joined and as released at once,
+   and is never attached: the two totals move together and the stream's consumer count stays *)
+Lemma late_attach_released_at_once : forall h i flv,
+  let sp := sexec sinit h in
+  (i < length (sp_streams sp))%nat -> st_live (sp_get sp i) = false ->
+  closed_total i (h ++ [GAttach i flv]) = closed_total i h + 1 /\
+  attached_total i (h ++ [GAttach i flv]) = attached_total i h + 1 /\
+  consumers (sp_get (sexec sinit (h ++ [GAttach i flv])) i) = consumers (sp_get sp i).
+Proof.
+  intros h i flv sp Hi Hd.
+  assert (Hstep : sexec sinit (h ++ [GAttach i flv]) = sp).
+  { rewrite sexec_app. cbn [sexec sstep]. fold sp. rewrite Hd.
+    rewrite orb_true_r. reflexivity. }
+  assert (Hlate : forall g a b, late_count i g (a ++ b) = late_count i g a + late_count i (sexec g a) b).
+  { intros g a. revert g. induction a as [|o a IH]; intros g b; [reflexivity|].
+    cbn [app late_count sexec]. rewrite IH. lia. }
+  unfold closed_total, attached_total. rewrite Hstep, Hlate. fold sp.
+  cbn [late_count]. rewrite Nat.eqb_refl, Hd. apply Nat.ltb_lt in Hi. rewrite Hi. cbn [andb negb].
+  repeat split; lia.
+Qed.
+
 (* the replayed scenarios are such histories, they are well-formed (so the implementation model of
    the registry answers like the specification on them, C05), and their predicted observations meet
    the demand the check applies *)
 Lemma repl_model_ok : forall a1 a2 e,
-  ok_repl a1 a2 e (repl_model a1 a2 e) = true /\
+  ok_repl (attached a1) a2 e (repl_model a1 a2 e) = true /\
   hist_wf sinit (repl_phase3 a1 a2 e) = true /\
   In (GUnregist 0) (repl_phase3 a1 a2 e) /\ In (GUnregist 1) (repl_phase3 a1 a2 e).
 Proof.
